@@ -490,21 +490,27 @@ theorem elab_ctor_exact {Γ : Env} {dbg : Bool} {t : Ty} {args : SArgs} {e' : IE
         | ctor h1 h2 h3 h4 => exact ⟨rfl, _, _, _, _, rfl, h1, h2, h3, h4⟩
       · simp at h
 
-/-- a subscript whose index does not convert to `uint` is never accepted -/
-theorem elab_rejects_index_type {Γ : Env} {dbg : Bool} {a i : SExpr} {a' i' : IExpr} {τa τi : ETy}
-    (ha : elabE dbg Γ a = .ok (a', τa)) (hi : elabE dbg Γ i = .ok (i', τi)) (hf : find τi uintR = .ok none) :
+/-- a subscript whose index does not convert to the index type of the subscripted value (`uint` for arrays, vectors,
+    matrices, buffers; `uint2` / `uint3` for textures) is never accepted -/
+theorem elab_rejects_index_type {Γ : Env} {dbg : Bool} {a i : SExpr} {a' i' : IExpr} {τa τi it : ETy}
+    (ha : elabE dbg Γ a = .ok (a', τa)) (hi : elabE dbg Γ i = .ok (i', τi))
+    (hit : indexTy Γ τa.ty.layer = .ok it) (hf : find τi it = .ok none) :
     ∀ r, elabE dbg Γ (.index a i) ≠ .ok r := by
   intro r h
-  cases hx : indexable Γ τa.ty.layer <;> simp [elabE, ha, hi, elabIndex, hf, hx] at h
+  simp [elabE, ha, hi, elabIndex, hit, hf] at h
 
-/-- the index operand of an accepted subscript has exactly the type `uint` (the conversion is explicit) -/
+/-- the index operand of an accepted subscript has exactly the index type of the subscripted value (the conversion is
+    explicit); for arrays, vectors and matrices that is `uint` -/
 theorem elab_index_exact {Γ : Env} {dbg : Bool} {a i : SExpr} {e' : IExpr} {τ : ETy}
     (h : elabE dbg Γ (.index a i) = .ok (e', τ)) :
-    ∃ a' i' ti, e' = .index a' i' ∧ HasType Γ i' ti ∧ ti.ty = scalarTy .uInt32 := by
-  obtain ⟨a0, τa, i0, τi, n, τ', _, hi, hx, heq⟩ := elabE_index_inv h
+    ∃ a' τa i' ti it, e' = .index a' i' ∧ HasType Γ a' τa ∧ HasType Γ i' ti ∧ indexTy Γ τa.ty.layer = .ok it ∧
+      ti.ty = it.ty ∧ (τa.ty.layer.isNumeric = true → ti.ty = scalarTy .uInt32) := by
+  obtain ⟨a0, τa, i0, τi, n, τ', ha, hi, hx, heq⟩ := elabE_index_inv h
   simp at heq; obtain ⟨rfl, rfl⟩ := heq
-  obtain ⟨i', ti, rfl, h1, h2⟩ := elabIndex_index_exact (elab_sound hi) hx
-  exact ⟨a0, i', ti, rfl, h1, h2⟩
+  obtain ⟨i', ti, it, rfl, h1, h2, h3⟩ := elabIndex_index_exact (elab_sound hi) hx
+  refine ⟨a0, τa, i', ti, it, rfl, elab_sound ha, h1, h2, h3, ?_⟩
+  intro hn
+  rw [h3, indexTy_numeric hn h2]; rfl
 
 theorem bin_target_error {Γ : Env} {dbg : Bool} {o : BinOp} {a b : SExpr} {m : Err} (ha : elabE dbg Γ a = .error m) :
     ∀ r, elabE dbg Γ (.bin o a b) ≠ .ok r := by
@@ -571,6 +577,18 @@ theorem elab_rejects_const_array_write_chain {Γ : Env} {dbg : Bool} {o : BinOp}
   | ok p =>
     obtain ⟨n, τ'⟩ := p
     exact elab_rejects_assign_to_const ho hm (chain_constArr hb hc hm).1 r h
+
+/-- elements of read-only resources (`StructuredBuffer<float4> b; b[i].x = ..`, `Texture2D<float4> t; t[p] = ..`), and
+    everything projected from them, are never written -/
+theorem elab_rejects_readonly_resource_write_chain {Γ : Env} {dbg : Bool} {o : BinOp} {base i b : SExpr} {ps : List Proj}
+    {b0 : IExpr} {τ0 : ETy} (ho : o.cls = .assign) (hb : elabE dbg Γ base = .ok (b0, τ0)) (hc : ReadOnlyRes Γ τ0) :
+    ∀ r, elabE dbg Γ (.bin o (applyChain base (.index i :: ps)) b) ≠ .ok r := by
+  intro r h
+  cases hm : elabE dbg Γ (applyChain base (.index i :: ps)) with
+  | error m => simp [elabE, hm] at h
+  | ok p =>
+    obtain ⟨n, τ'⟩ := p
+    exact elab_rejects_assign_to_const ho hm (chain_readOnlyRes hb hc hm).1 r h
 
 def SArgs.toList : SArgs → List SExpr
   | .nil => []
@@ -863,6 +881,7 @@ theorem ids_of_hasType {Γ : Env} : ∀ (e : IExpr) (τ : ETy), HasType Γ e τ 
     | indexV ha hi _ => exact ⟨ids_of_hasType a _ ha, ids_of_hasType i _ hi⟩
     | indexM ha hi _ => exact ⟨ids_of_hasType a _ ha, ids_of_hasType i _ hi⟩
     | indexA ha hi _ _ => exact ⟨ids_of_hasType a _ ha, ids_of_hasType i _ hi⟩
+    | indexR ha hi _ _ _ => exact ⟨ids_of_hasType a _ ha, ids_of_hasType i _ hi⟩
   | .member e sid idx, _, h => by
     cases h with
     | member he _ ho hm => exact ⟨ids_of_hasType e _ he, _, ho, lt_of_getElem?_some hm⟩
